@@ -6,6 +6,7 @@
 //   CRASH status=<n> <tail of the child's output>
 // Scenario line:  W=<workers> J=<id>:<jop>.<jop>;<id>:... C=<cop>.<cop>;<cop>... M=<cop>.<cop> sp=<0|1> st=<0|1> seed=<n> [ch=<c,c,...>]
 //   jop: e<j> enqueue job j | t terminate() | x throw std::runtime_error at the end of the body (after the effect) |
+//        w<j> rendezvous: block (shim mutex m1 / condition variable c2, not the pool's) until the body of job j has ended, then note WD j |
 //        c<j> the closure's captured RAII token enqueues job j from its destructor | F / B (first op) the job is enqueued as a
 //        plain function pointer / a bound member function instead of a capturing lambda (then there is no closure token);
 //   cop: e<j> | L loop_until_empty | T loop_until_terminate | X terminate() | D done() | S size() | I idle() | H has_idle() | R thread(i) audit
@@ -127,6 +128,9 @@ static void do_enqueue(int j) {
     else { auto tok = std::make_shared<Token>(j); g_pool->enqueue([tok]() { run_job(tok->j); }); }
 }
 static void do_terminate() { verif::Sched::get().note("TERM"); g_pool->terminate(); }
+// rendezvous between job bodies: completion flags guarded by a shim mutex / condition variable of the harness (ids m1, c2)
+static verif::mutex* g_rm = nullptr; static verif::condition_variable* g_rcv = nullptr;
+static bool g_flag[4096]; static bool g_waited[4096];
 static void run_job(int j) {
     verif::Sched& s = verif::Sched::get();
     s.user("JS", j); g_started[j & 4095]++;
@@ -136,8 +140,13 @@ static void run_job(int j) {
             if (o.k == 'e') do_enqueue(o.j);
             else if (o.k == 't') do_terminate();
             else if (o.k == 'x') thr = true;
+            else if (o.k == 'w') {
+                { std::unique_lock<verif::mutex> lk(*g_rm); while (!g_flag[o.j & 4095]) g_rcv->wait(lk); }
+                s.note("WD", o.j);
+            }
         }
     s.user("JE", j); g_ran[j & 4095]++;   // the effect becomes visible atomically with the JE event
+    if (g_waited[j & 4095]) { std::unique_lock<verif::mutex> lk(*g_rm); g_flag[j & 4095] = true; g_rcv->notify_all(); }   // after JE
     if (thr) throw std::runtime_error("job " + std::to_string(j));   // the pool catches std::exception and goes on
 }
 static void run_cops(const std::vector<Op>& ops) {
@@ -176,6 +185,10 @@ static int child_main(Scenario& sc) {
     s.objid(&(P->*steal(TCvJobs())), 'c'); s.objid(&(P->*steal(TCvFin())), 'c');
     s.objid(&(P->*steal(TBusy())), 'a'); s.objid(&(P->*steal(TIdle())), 'a');
     s.objid(&(P->*steal(TDone())), 'a'); s.objid(&(P->*steal(TTerm())), 'a');
+    static verif::mutex rm; static verif::condition_variable rcv; g_rm = &rm; g_rcv = &rcv;
+    s.objid(&rm, 'm'); s.objid(&rcv, 'c');                                   // m1, c2
+    memset(g_flag, 0, sizeof(g_flag)); memset(g_waited, 0, sizeof(g_waited));
+    for (auto& ops : sc.jobs) for (const Op& o : ops) if (o.k == 'w') g_waited[o.j & 4095] = true;
     s.on_deadlock = [P, &s]() {
         printf("STATE jobs=%zu busy=%llu idle=%llu done=%llu term=%llu\n", (P->*steal(TJobs())).size(),
                raw<size_t>(&(P->*steal(TBusy()))), raw<size_t>(&(P->*steal(TIdle()))), raw<size_t>(&(P->*steal(TDone()))),
